@@ -51,7 +51,7 @@ func init() {
 	Register(&Engine{
 		Prop: "C19", Name: "blobsim", Run: runC19, Aux: c19WasmAux, AuxReplay: c19WasmReplay,
 		Trials: map[string]int{"quick": 100000, "thorough": 1500000},
-		Rule:   "sequences of 1-12 View/Slice/Set/Grow/Truncate/Len/Bytes calls through the package-level dispatch on 1-2 blob.Bytes of length 0..64 and on everything derived from them (views of views, Set from an own view), arguments from -2 to len+2 incl. start>end; after every call the Len and Bytes of every live object are compared with a []byte model (views alias, slices and Bytes() are copies; views are dropped when their root is resized); out-of-range arguments must give an error, no panic, no change; the sequence runs as the single task of the scheduler with lock gates on, so re-entering the blob mutex is a deterministic deadlock report; distinct = event-log hash; every executed sequence is non-trivial",
+		Rule:   "sequences of 1-12 View/Slice/Set/Grow/Truncate/Len/Bytes calls through the package-level dispatch on 1-2 blob.Bytes of length 0..64 and on everything derived from them (views of views, Set from an own view), arguments from -2 to len+2 incl. start>end; after every call the Len and Bytes of every live object are compared with a []byte model (views alias, slices and Bytes() are copies; views are dropped when their root is resized); out-of-range arguments must give an error, no panic, no change; the sequence runs as the single task of the scheduler with lock gates on, so re-entering the blob mutex is a deterministic deadlock report; distinct = event-log hash; every executed sequence is non-trivial One Set source in four is plain Go memory; blobs of 70000/140001 bytes in one trial of 25; a refused Set returns n=0.",
 		Components: map[string][]string{
 			"real": {"keyvalue/blob.Bytes", "keyvalue/blob dispatch functions", "overlay lock gates in keyvalue/blob"},
 			"stub": {},
